@@ -467,6 +467,7 @@ func runC19(c *Ctx) []Obligation {
 		[]string{`app\.newDefaultGenesisState`, kN + `EditStakeValidator`,`\(x/nodes/types\.Validator\)\.(AddStakedTokens|RemoveStakedTokens)`, `x/nodes\.(handleStake|legacyHandleMsgStake)`, `x/nodes/types\.(NewValidator|NewValidatorFromMsg)`, `\(\*?x/nodes/types\.(Validator|LegacyValidator|ProtoValidator|LegacyProtoValidator)\)\.(FromProto|ToProto|ToValidator|ToLegacy|Unmarshal|UnmarshalJSON|XXX_.*|Reset)`, `\(x/nodes/types\.(LegacyValidator|ProtoValidator|LegacyProtoValidator)\)\.(FromProto|ToProto|ToValidator)`, `x/nodes/types\.[A-Za-z]*(Unmarshal|FromProto|ToProto).*`},
 		"StakedTokens of a node record is assigned only by the staking arithmetic helpers, EditStakeValidator, the message→record constructors and (de)serialisation"))
 	out = append(out, tokenRemovalPersists(c, P)...)
+	out = append(out, nodesStakeRouting(c, P)...)
 	return out
 }
 
